@@ -16,5 +16,6 @@ CONSTANTS
   WithIndexer = TRUE
   MaxHeaders = 3
   TraceMode = FALSE
+  Foreign = FALSE
 INVARIANTS NoCrash NoLostTopic LockInv NoLeakedPublisher TopicAgreement IndexerInv
 CHECK_DEADLOCK TRUE
